@@ -239,7 +239,7 @@ def coerce_ctx(interp, ctx):
     if isinstance(ctx, SV) and ctx.t.sort() == CtxNameS:
         return ctx
     if isinstance(ctx, str):
-        return SV(z3.Const(f"ctxname:{ctx}", CtxNameS))
+        return SV(z3.Const(f"strconst:{ctx}", CtxNameS))     # the same constant coerce_scalar gives a concrete string
     raise OutOfReach(f"context name {ctx!r}")
 
 
@@ -305,13 +305,30 @@ def h_pairing_legacy(n_names):
         trig_ctx = Rec(fields={"get_name": lambda i: "file.x",
                                "trigger_register": lambda i, f: (registered.append(f), True)[1],
                                "get_trig_info": lambda i, n, a: Rec(name="TrigInfo")}, name="trig_ctx")
-        # nobody else owns these names (otherwise registration is rejected: covered by service_register's contract)
         eff_names = names if names else [it.to_sym_str("pyscript.f", DName(None))]
-        for nm in eff_names:
-            eng.assume(z3.Or(z3.Not(z3.Select(O0["dom"], nm.t)),
-                             z3.Select(O0[".v"], nm.t) == coerce_ctx(it, "file.x").t))
+        # the last name may be owned by another context (only with two names: the interesting case is a refusal AFTER a
+        # name that could be registered); all other names are free or owned by this context
+        conflict = n_names == 2 and bool(eng.choose(2, "last-name-owned-by-another-context"))
+        for j, nm in enumerate(eff_names):
+            mine = z3.Or(z3.Not(z3.Select(O0["dom"], nm.t)), z3.Select(O0[".v"], nm.t) == coerce_ctx(it, "file.x").t)
+            if conflict and j == len(eff_names) - 1:
+                eng.assume(z3.And(z3.Select(O0["dom"], nm.t), z3.Select(O0[".v"], nm.t) != coerce_ctx(it, "file.x").t))
+            else:
+                eng.assume(mine)
         kind, val = run_catching(it, lambda: it.await_(it.call(it.getattr_(self_, "trigger_init"), [trig_ctx, "f"], {})))
         eng.cover(f"init:{kind}")
+        if conflict:
+            eng.oblige(f"{U}/init.refused-name-fails-the-init", kind == "exc" and val.cls.name == "ValueError")
+            ob = eng.oblige(f"{U}/init.refused-name-replaces-no-callback", len(w.events("service_register")) == 0)
+            if ob.status == "refuted":
+                ob.witness = {"signature": "refused-name", "subsystem": "legacy"}
+            # the caller (AstEval.ast_functiondef) logs the error and stops the function's triggers
+            kind2, val2 = run_catching(it, lambda: it.call(it.getattr_(self_, "trigger_stop"), [], {}))
+            eng.oblige(f"{U}/init.refused-name-leaves-the-table-as-before", Forall([NameS], lambda k: z3.And(
+                snap_count(cnt.snapshot(), k) == snap_count(C0, k),
+                z3.Select(reg.cols["dom"], k) == z3.Select(R0["dom"], k),
+                z3.Select(own.cols["dom"], k) == z3.Select(O0["dom"], k)), "k"))
+            return
         eng.oblige(f"{U}/init.no-exception", kind == "ok")
         if kind != "ok":
             return
@@ -350,6 +367,8 @@ def part_const_(s):
 
 def replay_pairing(w):
     from replay.native import run_native
+    if w.get("signature") == "refused-name":
+        return replay_owner_name(w)
     return run_native("c12_duplicate_service_name", w)
 
 
@@ -380,34 +399,84 @@ def h_pairing_new(eng):
     eng.assume(I_svc(C0, O0, R0))
     d, s = z3.Const("dom", PartS), z3.Const("srv", PartS)
     key = join_fn2(d, s)
+    # a second name (alias) of the same function: @service(name1, name2)
+    two = bool(eng.choose(2, "two-names"))
+    d2, s2 = z3.Const("dom2", PartS), z3.Const("srv2", PartS)
+    key2 = join_fn2(d2, s2)
+    eng.assume(key2 != key)
     ctxname = z3.Const("ctx", CtxNameS)
     gctx = Rec(fields={"get_name": lambda i: SV(ctxname)}, name="global_ctx")
     # the evaluator's own name differs in general from its global context's name (e.g. 'file.x.func' for a run)
     ast_ctx = Rec(fields={"name": SV(z3.Const("ast_ctx_name", CtxNameS)), "global_ctx": gctx,
                           "get_global_ctx_name": lambda i: SV(ctxname)}, name="ast_ctx")
     dm = Rec(fields={"ast_ctx": ast_ctx}, name="dm")
-    dec = Rec(cls=SD, fields={"args": [PartV(d), PartV(s)], "kwargs": {"supports_response": "none"}, "dm": dm,
+    pairs = [[PartV(d), PartV(s)]] + ([[PartV(d2), PartV(s2)]] if two else [])
+    dec = Rec(cls=SD, fields={"args": pairs, "kwargs": {"supports_response": "none"}, "dm": dm,
                               "description": {}}, name="ServiceDecorator")
-    # the name is free or already owned by this global context
+    # the names are free or already owned by this global context
     eng.assume(z3.Or(z3.Not(z3.Select(O0["dom"], key)), z3.Select(O0[".v"], key) == ctxname))
+    conflict = two and bool(eng.choose(2, "second-name-owned-by-another-context"))
+    if two and not conflict:
+        eng.assume(z3.Or(z3.Not(z3.Select(O0["dom"], key2)), z3.Select(O0[".v"], key2) == ctxname))
+    if conflict:
+        eng.assume(z3.And(z3.Select(O0["dom"], key2), z3.Select(O0[".v"], key2) != ctxname))
     kind, val = run_catching(it, lambda: it.await_(it.call(it.getattr_(dec, "start"), [], {})))
     eng.cover(f"start:{kind}")
+    if conflict:
+        # a refused name: start fails and leaves NONE of the decorator's names registered (all or nothing)
+        rems0 = w.events("service_remove")
+        eng.oblige(f"{U}/start.refused-name-fails-the-start", kind == "exc" and val.cls.name == "ValueError")
+        # (either nothing was registered before the refusal was noticed, or each registration made was removed again)
+        regs0 = w.events("service_register")
+        ob = eng.oblige(f"{U}/start.refused-name-rolls-back-the-names-already-registered",
+                        len(rems0) == len(regs0) and all(it.eq(a[1], b[1]) for a, b in zip(regs0, rems0)))
+        if ob.status == "refuted":
+            ob.witness = {"signature": "refused-name", "subsystem": "new"}
+        # registering a name replaces Home Assistant's callback for it, which no rollback restores: a later call would reach
+        # this refused definition instead of the most recent declared one
+        ob = eng.oblige(f"{U}/start.refused-name-replaces-no-callback", len(regs0) == 0)
+        if ob.status == "refuted":
+            ob.witness = {"signature": "refused-name", "subsystem": "new"}
+        R1, C1, O1 = reg.snapshot(), cnt.snapshot(), own.snapshot()
+        eng.oblige(f"{U}/start.refused-name-leaves-the-table-as-before", Forall([NameS], lambda k: z3.And(
+            z3.Select(R1["dom"], k) == z3.Select(R0["dom"], k),
+            snap_count(C1, k) == snap_count(C0, k),
+            z3.Select(O1["dom"], k) == z3.Select(O0["dom"], k)), "k"))
+        return
     eng.oblige(f"{U}/start.no-exception", kind == "ok")
     regs = w.events("service_register")
-    eng.oblige(f"{U}/start.registers-exactly-once", len(regs) == 1 and it.eq(regs[0][1], DName(key)))
+    keys = [key] + ([key2] if two else [])
+    eng.oblige(f"{U}/start.registers-each-name-exactly-once", len(regs) == len(keys) and all(it.eq(r[1], DName(k)) for r, k in zip(regs, keys)))
     # the owner recorded for cross-context protection must be the *global context* name
     ob = eng.oblige(f"{U}/start.owner-is-global-context-name",
-                    len(regs) == 1 and it.eq(regs[0][2], SV(ctxname)))
+                    len(regs) == len(keys) and all(it.eq(r[2], SV(ctxname)) for r in regs))
     if ob.status == "refuted":
         ob.witness = {"signature": "owner-is-evaluator-name"}
     kind2, val2 = run_catching(it, lambda: it.await_(it.call(it.getattr_(dec, "stop"), [], {})))
     rems = w.events("service_remove")
-    eng.oblige(f"{U}/stop.removes-exactly-once-same-key", kind2 == "ok" and len(rems) == 1 and it.eq(rems[0][1], DName(key)))
+    eng.oblige(f"{U}/stop.removes-each-name-exactly-once", kind2 == "ok" and len(rems) == len(keys) and all(it.eq(r[1], DName(k)) for r, k in zip(rems, keys)))
 
 
 def replay_owner_name(w):
     from replay.native import run_native
+    if w.get("signature") == "refused-name":
+        for order in ("accepted-first", "refused-first"):
+            r = run_native("c12_refused_name", dict(w, order=order))
+            if r.get("reproduced") or r.get("error"):
+                return r
+        return r
     return run_native("c12_owner_is_evaluator_name", w)
+
+
+def bounded_random(seed_base, programs):
+    def run(seed):
+        from replay.native import run_native
+        return run_native("c12_random_bounded", {"seed": seed_base + seed, "programs": programs}, timeout=1500)
+    return run
+
+
+_B_UNITS = [(E_PY, "AstEval.ast_functiondef"), (E_PY, "EvalFunc.trigger_init"), (E_PY, "EvalFunc.trigger_stop"),
+            (S_PY, "ServiceDecorator.start"), (S_PY, "ServiceDecorator.stop"), (F_PY, "Function.service_register"), (F_PY, "Function.service_remove")]
 
 
 def harnesses():
@@ -424,6 +493,13 @@ def harnesses():
     hs.append(mutator_closure_harness("C12", "service-tables", {"service_cnt": {"cls", "Function"},
                                                                 "service2global_ctx": {"cls", "Function"}},
                                       {"Function.service_register", "Function.service_remove"}))
+    # bounded stand-in for the whole life cycle (definition through the interpreter, refusal, roll-back by the caller, unload):
+    # the parts between the contracts above that are not under contract themselves (AstEval.ast_functiondef, GlobalContext.stop,
+    # DecoratorManager.start/stop).  Deleting / redefining a name is NOT generated: when the old function's services go away then
+    # depends on when CPython finalises the function object (property C09's not-decided clause).
+    hs.append(Harness("bounded.random-life-cycles", bounded_random(0, 60), units=_B_UNITS, kind="bounded"))
+    for k in range(1, 4):
+        hs.append(Harness(f"bounded.random-life-cycles[thorough {k}/3]", bounded_random(10 * k, 150), units=_B_UNITS, kind="bounded", tier="thorough"))
     return hs + harnesses_outgoing()
 
 
